@@ -642,6 +642,7 @@ fn cmd_print(args: &Args) {
         lines.push(rec_more::print_case(run, &p, &dir));
         cases.push(json!({"run": run, "problem": p}));
     }
+    lines.push(rec_more::print_case_f32(count + 1));
     // the sink target and the process's real standard output: a child process solves verbosely into the sink (nothing may
     // reach its stdout) and then, as a control, to stdout (the log must arrive)
     for mode in ["sink", "stdout"] {
